@@ -18,7 +18,7 @@ WORDS = ["say", "Say", "SAY", "it", "it's", "isn't", "ain't", "the", "The", "my"
          "''", "\"a b\"", "\"multi\nline\"", "\"unterminated", "(comment)", "(multi\nline\ncomment)", "(unterminated",
          "\"s\"'s", "\"s\"'re", "(c)'s", "(c\n)'re", "5's", "5're", "1.5's", "\n", "\n\n", "\r\n", "\t", " ", "  ",
          " ", " ", " ", "\x0b", "\x0c", "\x85", "takes", "taking", "and", "into", "'s", "'re", "'S", "'RE",
-         "a's", "a're", "A'Re", "don''t", "x'''", "'x", "²", "½", "x²", "١٢٣", "１２", "Ⅷ"]
+         "a's", "a're", "A'Re", "a'rE", "boys'Re", "don''t", "x'''", "'x", "²", "½", "x²", "١٢٣", "１２", "Ⅷ", "€", "€5", "x€", "→", "“hello”", "🎸", "\u00a0", "\u3000", "\u2003", "\u205f", "\u1680", "日本語", "\"Crüe\nüü\" loud", "(c\n日本 🎸)'s x", "\"one\ntwo\"'s up", "(a\nb)'re rocking, now"]
 
 
 def soup(rng, n):
@@ -79,3 +79,7 @@ def mutate(rng, text):
         elif chars:
             del chars[min(i, len(chars) - 1)]
     return "".join(chars)
+
+EXTRA += [" ", "€", "→", "“", "”", "🎸", "　", " ", "\x0b", "\x85", "日", "ß", "ǅ"]
+WORDS += ["a'rE", "boys'Re", "€", "€5", "x€", "→", "“hello”", "🎸", " ", "　", " ", " ", " ", "日本語",
+          "\"Crüe\nüü\" loud", "(c\n日本 🎸)'s x", "\"one\ntwo\"'s up", "(a\nb)'re rocking, now", "\"a\nb\"'s \"x\"\nSay\n"]
